@@ -55,7 +55,7 @@ func useCheck(id, fam string, tier common.Tier) int {
 		lenAll, lenCore, depthB = 3, 4, 3
 	}
 	run.SetRule("state = (using package, annotation mix, history of declarations, each with a statement sequence); every state is rendered and analysed by the real analyzers via checker.Analyze and every candidate line compared with a reference that applies the once-per-file-and-type rule in textual order. Non-trivial = the reference expects at least one diagnostic.",
-		fmt.Sprintf("annotation subsets: all 32 subsets of the five annotated items x 4 declaration orders of the declaring package; single declaration: all statement sequences of length<=%d over %d sites and length<=%d over %d core sites x %d enclosers x files {regular,_test}; histories of <=%d declarations (body with one core statement, or a declaration-level site) x 3 files; %d packages x %d mixes",
+		fmt.Sprintf("annotation subsets: all 32 subsets of the five annotated items x 4 declaration orders of the declaring package; single declaration: all statement sequences of length<=%d over %d sites (quick tier: pairs with at least one core statement) and length<=%d over %d core sites x %d enclosers x files {regular,_test}; histories of <=%d declarations (body with one core statement, or a declaration-level site) x 3 files; %d packages x %d mixes",
 			lenAll, len(all), lenCore, len(core), 8, depthB, len(pkgs), len(mixes)))
 	run.Assume("go/parser, go/types, checker.Analyze trusted")
 	run.NotJudged("receiver of a method declared on a @testonly type", "@testonly types in the signature of a @testonly function",
@@ -103,7 +103,14 @@ func useCheck(id, fam string, tier common.Tier) int {
 						case rich && thorough, thorough && encl == e1.UEPlain, fam == "TONL" && encl == e1.UETestOnlyFunc:
 							n = 2
 						}
+						isCore := map[int]bool{}
+						for _, c := range core {
+							isCore[c] = true
+						}
 						seqs(all, n, func(st []int) {
+							if !thorough && len(st) == 2 && !isCore[st[0]] && !isCore[st[1]] {
+								return // quick tier: pairs with at least one core statement (the thorough tier has all pairs)
+							}
 							do(&e1.UseSpec{Pkg: pk, Mix: mix, Sites: sites, Blocks: []e1.UseBlock{{Encl: encl, File: file, Stmts: st}}})
 						})
 						// longer sequences over the core alphabet
@@ -157,10 +164,20 @@ func useCheck(id, fam string, tier common.Tier) int {
 				}
 				// Phase B: histories of declarations (depth 2 over the full declaration alphabet).
 				var alpha, small []e1.UseBlock
+				// quick tier: the declaration histories carry every second core statement (the alphabet enters squared)
+				histCore := core
+				if !thorough {
+					histCore = nil
+					for ci, c := range core {
+						if ci%2 == 0 {
+							histCore = append(histCore, c)
+						}
+					}
+				}
 				for encl := e1.UEPlain; encl < e1.UseEncl(len(e1.UseEnclNames)); encl++ {
 					for file := 0; file < 3; file++ {
 						if encl.HasBody() {
-							for ci, c := range core {
+							for ci, c := range histCore {
 								b := e1.UseBlock{Encl: encl, File: file, Stmts: []int{c}}
 								alpha = append(alpha, b)
 								if file < 2 && ci < 4 && (encl == e1.UEPlain || encl == e1.UETestOnlyFunc || encl == e1.UEPkgVar) {
